@@ -4,25 +4,6 @@ import Pw.C09.Cond
 namespace C09
 open MG C08
 
-/-- `M` is a MAG without undirected edges -/
-structure IsMAG (M : MG) : Prop where
-  noUn : M.un = []
-  noCirc : M.circ = []
-  ancestral : Ancestral M
-  maximal : Maximal M
-
-/-- `P` is the PAG of the MAG `M0`, from the definition: same nodes and adjacencies, and an endpoint
-    mark is an arrowhead (tail) iff every MAG Markov equivalent to `M0` has an arrowhead (tail) there -/
-structure IsPagOf (M0 P : MG) : Prop where
-  nodes : P.nodes = M0.nodes
-  adj : ∀ a b, (markAt P a b).isSome ↔ (markAt M0 a b).isSome
-  head : ∀ a b, (markAt M0 a b).isSome →
-    (markAt P a b = some .head ↔
-      ∀ M', IsMAG M' → M'.nodes = M0.nodes → MarkovEquiv M0 M' → markAt M' a b = some .head)
-  tail : ∀ a b, (markAt M0 a b).isSome →
-    (markAt P a b = some .tail ↔
-      ∀ M', IsMAG M' → M'.nodes = M0.nodes → MarkovEquiv M0 M' → markAt M' a b = some .tail)
-
 /-- **C09, full statement.** -/
 def C09_full : Prop :=
   (∀ (P : MG) (inner : List Nat), inner.Nodup → Structural P (pagToMag P inner)) ∧
